@@ -403,6 +403,19 @@ func runC14(c *ctx) {
 			c14Eval(c, c14Case{Op: "reject.req", Session: s, Sys: pickSys(), Code: code, PType: r.Intn(256), SType: r.Intn(256)})
 		}
 	}
+	// header fields that, read together, look like framing: session id 0 with a small status or reason code makes the
+	// header start with 00 00 00 0A, the length field of a control message (also 0E, and the same in the system bytes)
+	for _, s := range []int{0, 10, 14, 0x0A00, 0x0E00, 0xFFFF} {
+		for code := 0; code < 256; code++ {
+			for _, sys := range []string{"0000000a", "0000000e", "00000000", pickSys()} {
+				c.Class("header-bytes-that-read-like-framing")
+				c14Eval(c, c14Case{Op: "select.rsp", Session: s, Sys: sys, Code: code})
+				c14Eval(c, c14Case{Op: "deselect.rsp", Session: s, Sys: sys, Code: code})
+				c14Eval(c, c14Case{Op: "reject.req", Session: s, Sys: sys, Code: code, PType: code & 1, SType: code & 0xF})
+				c14Eval(c, c14Case{Op: "reject.req", Session: s, Sys: sys, Code: code, PType: 0, SType: 0})
+			}
+		}
+	}
 	for p := 0; p < 256; p++ {
 		for s := 0; s < 256; s++ {
 			c14Eval(c, c14Case{Op: "reject.req", Session: r.Intn(65536), Sys: pickSys(), Code: 2, PType: p, SType: s})
@@ -446,7 +459,7 @@ func runC14(c *ctx) {
 	for rep := 0; rep < 50; rep++ {
 		c14Eval(c, c14Case{Op: "wrong-request", Session: r.Intn(65536), Sys: pickSys()})
 	}
-	c.Required = []string{"first-type-calls-of-a-process-made-concurrently", "wrapped-request", "constructed/select.req", "constructed/reject.req", "constructed/linktest.rsp", "constructed/linktest.rsp<-raw", "constructed/select.rsp<-raw", "type/undefined", "type/separate.req", "request-kind-check", "short-header"}
+	c.Required = []string{"header-bytes-that-read-like-framing", "first-type-calls-of-a-process-made-concurrently", "wrapped-request", "constructed/select.req", "constructed/reject.req", "constructed/linktest.rsp", "constructed/linktest.rsp<-raw", "constructed/select.rsp<-raw", "type/undefined", "type/separate.req", "request-kind-check", "short-header"}
 }
 
 func replayC14(c *ctx, raw json.RawMessage) {
